@@ -463,11 +463,13 @@ class DocumentationAggregator(CMakeListener):
             return
 
         name = ""
+        name_indices = []
         for i in range(0, len(params)):
             param = params[i]
             if param.upper() == "NAME":
                 try:
                     name = params[i + 1]
+                    name_indices = [i, i + 1]
                 except IndexError:
                     pretty_text = docstring
                     pretty_text += f"\n{ctx.getText()}"
@@ -475,7 +477,7 @@ class DocumentationAggregator(CMakeListener):
                     self.logger.error(f"add_test() called with incorrect parameters: {params}\n\n{pretty_text}")
                     return
 
-        test_doc = CTestDocumentation(name, docstring, [p for p in params if p != name and p != "NAME"])
+        test_doc = CTestDocumentation(name, docstring, [p for i, p in enumerate(params) if i not in name_indices])
         self.documented.append(test_doc)
 
     def process_option(self, ctx: CMakeParser.Command_invocationContext, docstring: str) -> None:
